@@ -84,7 +84,9 @@ _harness_hash = None
 def harness_hash():
     global _harness_hash
     if _harness_hash is None:
-        _harness_hash = sha_tree([os.path.join(ROOT, d) for d in ("engine", "ref", "lib", "gen")])
+        paths = [os.path.join(ROOT, d) for d in ("engine", "ref", "lib", "gen")]
+        paths += sorted(os.path.join(ROOT, "props", f) for f in os.listdir(os.path.join(ROOT, "props")) if f.endswith(".hpp"))
+        _harness_hash = sha_tree(paths)
     return _harness_hash
 
 
@@ -190,7 +192,7 @@ def load_known():
         words = rest.split()
         text = []
         for w in words:
-            if "=" in w and not text and w.split("=")[0] in ("property", "id", "predicate", "witness", "commit"):
+            if "=" in w and not text and w.split("=")[0] in ("property", "id", "predicate", "witness", "commit", "config"):
                 k, v = w.split("=", 1)
                 fields[k] = v
             else:
@@ -338,14 +340,22 @@ def run_property(prop, tier, seed):
             violations.append(path)
 
     # ---- regression witnesses (always expected to pass)
-    for w in p.get("regress", []):
-        rc, out, err = run_proc([wbin, "witness", w] + active_known_arg(), 300)
-        if rc != 0:
-            os.makedirs(os.path.join(ROOT, "replays"), exist_ok=True)
-            path = os.path.join(ROOT, "replays", "%s-witness-%s.txt" % (prop, w))
-            with open(path, "w") as fh:
-                fh.write("# regression witness %s\n%s\n%s\n" % (w, out, err[-3000:]))
-            violations.append(path)
+    regress_bins = [(c, bins[(prop, c, False)]) for c in cfgs] if tierconf.get("regress_all_configs") else [(cfgs[0], wbin)]
+    regress_jobs = [(w, c, b) for w in p.get("regress", []) for c, b in regress_bins]
+
+    def run_regress(job):
+        w, c, b = job
+        rc, out, err = run_proc([b, "witness", w] + active_known_arg(), 900)
+        return job, rc, out, err
+
+    with ThreadPoolExecutor(max_workers=NCPU) as ex:
+        for (w, c, b), rc, out, err in ex.map(run_regress, regress_jobs):
+            if rc != 0:
+                os.makedirs(os.path.join(ROOT, "replays"), exist_ok=True)
+                path = os.path.join(ROOT, "replays", "%s-%s-witness-%s.txt" % (prop, c, w))
+                with open(path, "w") as fh:
+                    fh.write("# regression witness %s (config %s)\n%s\n%s\n" % (w, c, out, err[-3000:]))
+                violations.append(path)
 
     # ---- generated cases, sharded
     counters_files = []
